@@ -30,7 +30,11 @@ func main() {
 	defer cleanup()
 
 	// 4: linearizability of the bare queue object (in this process)
+	t0 := time.Now()
 	queueLinearizability(c, c.N(300, 4000))
+	if os.Getenv("C12_TIMES") != "" { // development aid
+		fmt.Fprintf(os.Stderr, "C12_TIMES queue histories %.1fs\n", time.Since(t0).Seconds())
+	}
 
 	type batch struct {
 		idx    int
@@ -38,18 +42,37 @@ func main() {
 		ngpu   int
 		nscen  int
 		mode   string
+		// flavour flags handed to the child (child.go): layout=<k> makes every
+		// k-th scenario of the batch a layout scenario (layout.go), buddy
+		// selects the buddy allocator, magic the timing platform with magic
+		// memory copy (copy-only layout scenarios), canon-layout the fixed
+		// layout battery of the platform
+		flavour string
 	}
 	var batches []batch
 	nb := c.N(24, 160)
 	modes := []string{"random", "hold-drainer", "hold-engine-exit", "none", "random", "hold-both"}
 	for i := 0; i < nb; i++ {
-		b := batch{idx: i, nscen: 14, ngpu: 1 + i%2, mode: modes[i%len(modes)]}
+		b := batch{idx: i, nscen: 17, ngpu: 1 + i%2, mode: modes[i%len(modes)], flavour: "layout=5"}
+		if i%4 >= 2 {
+			// recycled frames: allocate / free churn on the buddy allocator
+			b.flavour += ",buddy"
+		}
 		batches = append(batches, b)
 	}
 	// timing platform (DMA copy path, caches, flushes): fewer, slower scenarios
 	nt := c.N(12, 64)
 	for i := 0; i < nt; i++ {
-		batches = append(batches, batch{idx: 500 + i, nscen: 4, ngpu: 1 + i%2, mode: modes[i%len(modes)], timing: true})
+		b := batch{idx: 500 + i, nscen: 5, ngpu: 1 + i%2, mode: modes[i%len(modes)], timing: true, flavour: "layout=5"}
+		if i%4 >= 2 {
+			b.flavour += ",buddy"
+		}
+		batches = append(batches, b)
+	}
+	// timing platform with magic memory copy: copy-only layout scenarios
+	nm := c.N(1, 12)
+	for i := 0; i < nm; i++ {
+		batches = append(batches, batch{idx: 700 + i, nscen: 8, ngpu: 2 - i%2, mode: modes[i%len(modes)], timing: true, flavour: "magic"})
 	}
 	// the plain blocking-copy loop that exposed both liveness defects
 	loops := c.N(4, 16)
@@ -60,6 +83,32 @@ func main() {
 	// canonical reproducers (seed independent), one child each
 	batches = append(batches, batch{idx: 9000, nscen: 1, ngpu: 1, mode: "canon-second-queue-cached-code"})
 	batches = append(batches, batch{idx: 9001, nscen: 1, ngpu: 1, timing: true, mode: "canon-second-queue-cached-code"})
+	// canonical layout batteries (sub-range commands over physically scattered
+	// pages, contexts with interleaved frames), one child per platform
+	batches = append(batches,
+		batch{idx: 9100, nscen: 1, ngpu: 2, mode: "none", flavour: "canon-layout"},
+		batch{idx: 9101, nscen: 1, ngpu: 1, mode: "none", flavour: "canon-layout,buddy"},
+		batch{idx: 9103, nscen: 1, ngpu: 2, mode: "none", timing: true, flavour: "canon-layout"},
+		batch{idx: 9104, nscen: 1, ngpu: 2, mode: "none", timing: true, flavour: "canon-layout,magic"},
+	)
+	if c.Thorough() {
+		// one GPU, DMA copy path: pages scattered by Remap onto the same GPU
+		batches = append(batches, batch{idx: 9102, nscen: 1, ngpu: 1, mode: "none", timing: true, flavour: "canon-layout"})
+	}
+
+	// longest children first (timing batches, then the copy loops): the pool
+	// below takes the batches in list order and a long one started last would
+	// be the tail of the run
+	cost := func(b batch) int {
+		switch {
+		case b.timing && b.idx < 700:
+			return 0
+		case b.nscen < 0:
+			return 1
+		}
+		return 2
+	}
+	sort.SliceStable(batches, func(i, j int) bool { return cost(batches[i]) < cost(batches[j]) })
 
 	type raceRep struct {
 		key   string
@@ -73,15 +122,18 @@ func main() {
 	vlib.Parallel(len(batches), 8, func(i int) {
 		b := batches[i]
 		args := []string{"child", strconv.FormatInt(c.Seed, 10), strconv.Itoa(b.idx), strconv.Itoa(b.nscen),
-			strconv.FormatBool(b.timing), strconv.Itoa(b.ngpu), b.mode}
+			strconv.FormatBool(b.timing), strconv.Itoa(b.ngpu), b.mode, b.flavour}
 		dirTag := fmt.Sprintf("b%d", b.idx)
 		raceLog := filepath.Join(scratch, dirTag+"-race")
 		res := vlib.RunChild(scratch, 45*time.Minute,
 			[]string{"GORACE=halt_on_error=0 log_path=" + raceLog, "GOMAXPROCS=" + strconv.Itoa(2+i%7)}, args...)
+		if os.Getenv("C12_TIMES") != "" {
+			fmt.Fprintf(os.Stderr, "C12_TIMES batch %d timing=%v gpus=%d %s %s: %.1fs\n", b.idx, b.timing, b.ngpu, b.mode, b.flavour, res.Dur.Seconds())
+		}
 		notes := c.AbsorbFile(res.RecPath)
 		_, finished := notes["done"]
 		_, verdict := notes["verdict"]
-		if b.idx >= 9000 {
+		if b.idx >= 9000 && b.idx < 9100 {
 			okv, has := notes["canon_ok"]
 			good := has && len(okv) > 0 && okv[0] == true
 			if !good && !res.TimedOut {
@@ -91,6 +143,9 @@ func main() {
 			}
 			c.Count("canonical_runs", 1)
 			return
+		}
+		if b.idx >= 9100 {
+			c.Count("canonical_runs", 1)
 		}
 		if res.TimedOut {
 			c.Inconclusive(fmt.Sprintf("batch %d: watchdog fired (no logical verdict); tail: %s", b.idx, vlib.Tail(res.OutPath, 600)))
@@ -142,7 +197,11 @@ func main() {
 	c.Finish(vlib.FinishOpts{
 		Rule: "scenario = (platform, #application goroutines, contexts, queues, per-queue sequence of H2D / non-commuting element-wise kernels (add, mul, xor) / D2H / drain, " +
 			"enqueue-then-drain or blocking style, delay mode at the driver's yield points); non-trivial = distinct interleaving signature (hash of the order of yield-point events) " +
-			"of a scenario in which a notification was issued while a waiter was between its emptiness check and Wait, or the engine left Engine.Run while a kick was in progress",
+			"of a scenario in which a notification was issued while a waiter was between its emptiness check and Wait, or the engine left Engine.Run while a kick was in progress. " +
+			"Layout scenarios (same oracle: every read-back equals the queue's commands applied in submission order, guards and the pages of a silent bystander context unchanged) widen the command shapes: " +
+			"host copies that start inside a page and run over page ends, kernels and device-to-device copies over such sub-ranges, on 2-4 page buffers whose pages are physically scattered " +
+			"(Driver.Distribute over 2 GPUs, Remap of every other page, unified multi-GPU device, frames recycled by allocate/free churn on the buddy allocator) and physically interleaved with other queues' and contexts' pages " +
+			"(allocation order shuffled); emulation (magic copy), timing (DMA copy path) and timing with magic copy (copy-only). The counters below are read from the driver's page table, not from the plan",
 		Assumptions: []string{
 			"each application goroutine uses its own context(s), as runner.Run does; two goroutines may drain the same queue",
 			"deadlock is decided by an exact predicate over yield-point counters (all application goroutines inside Wait, runAsync back in select, engine goroutine gone); the wall-clock watchdog only yields 'inconclusive'",
@@ -150,7 +209,14 @@ func main() {
 		},
 		MinNontrivial: 20,
 		MinCounters: map[string]int64{"scenarios": 50, "commands_checked": 500, "drain_returns": 500,
-			"notify_between_check_and_wait": 5, "queue_histories": 100},
+			"notify_between_check_and_wait": 5, "queue_histories": 100,
+			// layout scenarios: what the page table says the copies really met
+			"layout_scenarios": 80, "canonical_layout_scenarios": 10, "bystander_pages_compared": 250,
+			"unaligned_crossing_copies_noncontig": 400, "unaligned_crossing_copies_noncontig|h2d": 200, "unaligned_crossing_copies_noncontig|d2h": 150,
+			"unaligned_crossing_copies_noncontig@emu": 280, "unaligned_crossing_copies_noncontig@timing": 30, "unaligned_crossing_copies_noncontig@timing-magic-copy": 60,
+			"crossing_copy_next_frame|other_context": 120, "contexts_with_interleaved_frames": 150, "scenarios_with_interleaved_contexts": 60,
+			"subrange_kernels_crossing_noncontig_pages": 200, "kernels_over_noncontig_buffers": 50,
+			"noncontiguous_buffers|distribute": 20, "noncontiguous_buffers|remap-alt": 60, "noncontiguous_buffers|unified": 15, "noncontiguous_buffers|plain-after-churn": 5},
 	})
 }
 
@@ -186,11 +252,14 @@ func firstLine(s string) string {
 	return trim(s, 300)
 }
 
+var reStamp = regexp.MustCompile(`\d{4}/\d\d/\d\d \d\d:\d\d:\d\d(\.\d+)? `)
 var reAddr = regexp.MustCompile(`0x[0-9a-f]+|\+0x[0-9a-f]+|:\d+|goroutine \d+|T\d+`)
 
 func crashClass(tail string) string {
 	for _, l := range strings.Split(tail, "\n") {
 		if strings.Contains(l, "panic:") || strings.Contains(l, "fatal error:") || strings.Contains(l, "Panic:") {
+			// the log package's time stamp would make the key differ from run to run
+			l = reStamp.ReplaceAllString(l, "")
 			return trim(reAddr.ReplaceAllString(strings.TrimSpace(l), ""), 120)
 		}
 	}
